@@ -465,7 +465,13 @@ fn cache_mismatches(b: &Built, ctx: &InsertionContext) -> Vec<Value> {
             match by_actor.get(&v) {
                 Some(f) => {
                     let fr = (f.state().verif_digest(), sched_of(f));
-                    if fr == live {
+                    // a tour holding jobs of two compatibility values exists only inside InfeasibleSearch (constraints
+                    // switched off); its tag is "the first tagged job of a HashSet", not a function of the tour: the tag
+                    // entry is left out of the comparison for such tours (the plugin applies the same rule)
+                    let tags: std::collections::HashSet<String> =
+                        rc.route().tour.jobs().filter_map(|j| j.dimens().get_job_compatibility().cloned()).collect();
+                    let strip = |d: &Vec<String>| d.iter().filter(|x| !(tags.len() > 1 && x.starts_with("s:"))).cloned().collect::<Vec<_>>();
+                    if (strip(&fr.0), &fr.1) == (strip(&live.0), &live.1) {
                         None
                     } else {
                         Some(json!({"v": v, "dig": live.0, "sched": live.1, "fresh_dig": fr.0, "fresh_sched": fr.1,
